@@ -501,10 +501,8 @@ def check_pairs(ctx, items, table, model, label):
             ctx.nontrivial.add((a.feel, b.feel))
         fails = list(pair_laws(a, b, rab, rba))
         if fails:
-            known = (far(a) or far(b)) and a.kind == b.kind and ctx.known('far-dates', None)
-            if not known:
-                ctx.violation('%s  [a = %s, b = %s]' % (fails[0], a.feel, b.feel), case_pair(a, b),
-                              impl={'a op b': dict(zip(OPS, [SHOW[x] for x in rab])), 'b op a': dict(zip(OPS, [SHOW[x] for x in rba]))}, laws_failed=fails)
+            ctx.violation('%s  [a = %s, b = %s]' % (fails[0], a.feel, b.feel), case_pair(a, b),
+                          impl={'a op b': dict(zip(OPS, [SHOW[x] for x in rab])), 'b op a': dict(zip(OPS, [SHOW[x] for x in rba]))}, laws_failed=fails)
         ctx.corr_checked += 1
         m = model[kab]
         if m != rab:
@@ -522,10 +520,8 @@ def check_triples(ctx, triples, impl, model, label):
             ctx.nontrivial.add((x.feel, a.feel, b.feel))
         fails = list(tri_laws(x, a, b, r))
         if fails:
-            known = (far(x) or far(a) or far(b)) and ctx.known('far-dates', None)
-            if not known:
-                ctx.violation('%s  [x = %s, a = %s, b = %s]' % (fails[0], x.feel, a.feel, b.feel), case_tri(x, a, b),
-                              impl=dict(zip(TRI_NAMES, [SHOW[v] for v in r])), laws_failed=fails)
+            ctx.violation('%s  [x = %s, a = %s, b = %s]' % (fails[0], x.feel, a.feel, b.feel), case_tri(x, a, b),
+                          impl=dict(zip(TRI_NAMES, [SHOW[v] for v in r])), laws_failed=fails)
         ctx.corr_checked += 1
         if m != r:
             diff = [TRI_NAMES[i] for i in range(9) if m[i] != r[i]]
